@@ -128,9 +128,20 @@ package rpc
 
 // ---- header decoders: safety case (C08): no frame can panic them; accepted fields lie inside the frame ----
 
+//@ func varintSize
+//@   property C08 C07
+//@   ensures result == 0 || (result == vlen(b) && fitsVarint(b))
+//@   ensures result <= 10
+//@   loop 1: unroll 10
+//@ func fieldSize
+//@   property C08 C07
+//@   ensures result == 0 || (fitsVarint(b) && vval(b) <= uint64(len(b)) - vlen(b) && result == vlen(b) + vval(b))
+//@   ensures result == 0 || (1 <= result && result <= uint64(len(b)) && 1 <= vlen(b) && vlen(b) <= 10)
+//@   ensures implies(result > 0 && b[0] < 0x80, result == 1 + uint64(b[0]) && vlen(b) == 1 && vval(b) == uint64(b[0]))
 //@ func (*pbRequest).Unmarshal
 //@   case safety:
 //@     property C08
+//@     opaque vlen, vval
 //@     requires req != nil && len(req.Upgrade) == 0 && len(req.ServiceMethod) == 0 && len(req.Args) == 0
 //@     loop 1: invariant offset <= length && sub(req.Upgrade, data) && sub(req.ServiceMethod, data) && sub(req.Args, data)
 //@     ensures implies(err == nil, sub(req.Upgrade, data) && sub(req.ServiceMethod, data) && sub(req.Args, data))
@@ -138,6 +149,7 @@ package rpc
 //@ func (*pbResponse).Unmarshal
 //@   case safety:
 //@     property C08
+//@     opaque vlen, vval
 //@     requires res != nil && len(res.Error) == 0 && len(res.Reply) == 0
 //@     loop 1: invariant offset <= length && sub(res.Error, data) && sub(res.Reply, data)
 //@     ensures implies(err == nil, sub(res.Error, data) && sub(res.Reply, data))
@@ -145,12 +157,14 @@ package rpc
 //@ func (*request).Unmarshal
 //@   case safety:
 //@     property C08
+//@     opaque vlen, vval
 //@     requires req != nil && len(req.Upgrade) == 0 && len(req.ServiceMethod) == 0 && len(req.Args) == 0
 //@     ensures implies(err == nil, sub(req.Upgrade, data) && sub(req.ServiceMethod, data) && sub(req.Args, data))
 
 //@ func (*response).Unmarshal
 //@   case safety:
 //@     property C08
+//@     opaque vlen, vval
 //@     requires res != nil && len(res.Error) == 0 && len(res.Reply) == 0
 //@     ensures implies(err == nil, sub(res.Error, data) && sub(res.Reply, data))
 
@@ -251,8 +265,12 @@ package rpc
 
 //@ lockinv Transport.connsMu
 //@   property C13 C14 C15
-//@   guards Transport.conns, Transport.idleConns, Transport.running, Transport.Dial, Transport.DialWithOptions, Transport.MaxConnsPerHost, Transport.MaxIdleConnsPerHost, conns.Conns, conns.cursor, connQueue.length, Map<map[string]*conns>, Map<map[string]*connQueue>, Elem<*persistConn>, Once.done
+//@   guards Transport.conns, Transport.idleConns, Transport.running, Transport.Dial, Transport.DialWithOptions, Transport.MaxConnsPerHost, Transport.MaxIdleConnsPerHost, conns.Conns, conns.cursor, connQueue.length, Map<map[string]*conns>, Map<map[string]*connQueue>, Elem<*persistConn>, Once.done, Chan.closed@Transport.done
+//@   tokens ctok
 //@   invariant onceDone(self) == self.running
+//@   invariant [C20] implies(self.running, self.done != nil)
+//@   invariant [C20] implies(gf_ctok(self) != 0, self.done == nil || !chanClosed(self.done))
+//@   invariant implies(!self.running, self.conns == nil && self.idleConns == nil)
 //@   invariant implies(self.running, self.conns != nil && self.idleConns != nil && 1 <= self.MaxIdleConnsPerHost && 1 <= self.MaxConnsPerHost && !isnil(self.Dial) && !isnil(self.DialWithOptions))
 //@   invariant forallkey(a, self.conns, csOK(self.conns[a], a))
 //@   invariant forallkey(a, self.conns, forallkey(b, self.conns, implies(a != b && arr(self.conns[a].Conns) != 0, arr(self.conns[a].Conns) != arr(self.conns[b].Conns))))
@@ -309,10 +327,11 @@ package rpc
 // Conn methods used by the Transport wrappers: assumed contracts for now (ghost call counter gg_ncall, last connection
 // used gg_lastconn); their bodies are verified under Part 5 where present.
 //@ func checkPersistConnErr
-//@   property C14
+//@   property C14 C06 C19
 //@   requires pc != nil && pc.Conn != nil
 //@   ghostset gb_markedDead(pc) = gb_markedDead(pc) || err == ErrShutdown
 //@   ensures implies(err == ErrShutdown, !pc.alive && gb_closeCalled(pc.Conn))
+//@   ensures [C06 C19 C14] implies(err != ErrShutdown, gg_codecClose() == old(gg_codecClose()))
 
 //@ pure oneCallTo(addr string) bool = gg_ncall() == old(gg_ncall()) + 1 && gg_lastconn() == gg_gotconn() && gg_gotaddr() == sid(addr)
 
@@ -326,14 +345,14 @@ package rpc
 //@   requires t != nil && call != nil && gf_tok(call) == 2 && !gb_internal(call) && (call.Done == nil || cap(call.Done) > 0)
 //@   ensures result == call
 //@   ensures [C02] gf_tok(call) != 2
-//@   ensures gg_ncall() == old(gg_ncall()) || oneCallTo(addr)
+//@   ensures gg_ncall() == old(gg_ncall()) || (oneCallTo(addr) && implies(call.Error == ErrShutdown, gb_markedDead(gg_gotpc())))
 //@   ensures implies(len(addr) == 0, gg_ncall() == old(gg_ncall()))
 //@ func (*Transport).Go
 //@   property C14 C04 C02
 //@   requires t != nil && (done == nil || cap(done) > 0)
 //@   ghostat (*Call).done#1: gf_tok(arg0) = 2
 //@   ensures result != nil
-//@   ensures gg_ncall() == old(gg_ncall()) || oneCallTo(addr)
+//@   ensures gg_ncall() == old(gg_ncall()) || (oneCallTo(addr) && implies(result.Error == ErrShutdown, gb_markedDead(gg_gotpc())))
 //@   ensures implies(len(addr) == 0, gg_ncall() == old(gg_ncall()) && result.Error == ErrDial)
 //@ func (*Transport).CallWithContext
 //@   property C14 C04 C19
@@ -575,12 +594,14 @@ package rpc
 //@   ghostset gb_sawIdle(conn) = (n == 0)
 //@   ensures true
 
+//@ observe Conn.closing as sawClosing
 //@ func (*Conn).Close
 //@   property C20 C03
 //@   requires conn != nil
 //@   ghostset gb_closeCalled(conn) = true
 //@   ensures [C20] gg_codecClose() == old(gg_codecClose()) || gg_codecClose() == old(gg_codecClose()) + 1
 //@   ensures [C20] implies(gg_codecClose() == old(gg_codecClose()), err == ErrShutdown)
+//@   ensures [C20] gg_codecClose() == old(gg_codecClose()) + 1 || gb_sawClosing(conn)
 //@   ghostat store Conn.closing#1: gb_wasClosing(arg0) = arg0.closing
 //@   atcall ClientCodec.Close#1: [C20] conn.closing && !gb_wasClosing(conn)
 
@@ -702,7 +723,7 @@ package rpc
 //@   loop 3: invariant conn.shutdown && gb_swept(conn) && conn.pending != nil && conn.streams != nil && sweptTok(conn) && forallkey(s, conn.pending, gf_tok(conn.pending[s]) != 1 || gb_internal(conn.pending[s]))
 //@   ghostat store Conn.shutdown#1: gb_swept(arg0) = true
 //@   ghostat store Call.Error#1: gf_tok(arg0) = ite(gf_tok(arg0) == 1 && !gb_internal(arg0), 2, gf_tok(arg0))
-//@   atcall (*Call).done#1: [C03] holds(Conn_mutex) && conn.shutdown && call.Error != nil
+//@   atcall (*Call).done#1: [C03] holds(Conn_mutex) && conn.shutdown && call.Error != nil && call.Error != io.EOF
 
 //@ func getUpgrade
 //@   ensures result != nil && upgradeZero(result)
@@ -757,13 +778,13 @@ package rpc
 //@   params c, key
 
 //@ func (*Conn).CallWithContext
-//@   property C02 C19
+//@   property C01 C02 C19
 //@   ghostset gg_ncall() = gg_ncall() + 1
 //@   ghostset gg_lastconn() = ref(conn)
 //@   requires usable(conn) && !isnil(ctx)
 //@   ghostat (*Conn).write#1: gf_tok(arg1) = 2
 //@   ghostat (*Conn).write#1: gb_internal(arg1) = false
-//@   ensures [C19] (gg_putcall() == old(gg_putcall()) + 1 && gg_ctxerr() == old(gg_ctxerr())) || (gg_putcall() == old(gg_putcall()) && gg_ctxerr() == old(gg_ctxerr()) + 1 && ref(result) == gg_lastErr())
+//@   ensures [C19 C01 C02] (gg_putcall() == old(gg_putcall()) + 1 && gg_ctxerr() == old(gg_ctxerr())) || (gg_putcall() == old(gg_putcall()) && gg_ctxerr() == old(gg_ctxerr()) + 1 && ref(result) == gg_lastErr())
 
 //@ func (*Conn).Ping
 //@   property C02
@@ -795,10 +816,10 @@ package rpc
 //@   property C11
 //@   ghostset gg_putbuf() = gg_putbuf() + 1
 //@ func (*stream).ReadMessage
-//@   property C10 C11
+//@   property C03 C10 C11 C20
 //@   requires w != nil && w.unmarshal != nil && (cap(b) == 0 || !gb_pooled(arr(b)))
 //@   loop 1: invariant w.closed <= 0
-//@   atcall sync.(*Cond).Wait#1: [C10] w.closed <= 0
+//@   atcall sync.(*Cond).Wait#1: [C10 C03 C20] w.closed <= 0
 //@   atcall stream.unmarshal#1: [C11] w.noCopy || len(arg0) == 0 || arr(arg0) != arr(e.Value)
 //@   atcall stream.unmarshal#2: [C11] w.noCopy || len(arg0) == 0 || arr(arg0) != arr(e.Value)
 //@ func (*stream).stop
@@ -1063,6 +1084,9 @@ package rpc
 //@   ensures [C04] gg_exec() <= old(gg_exec()) + 1 && gg_wresp() <= old(gg_wresp()) + 1
 //@   ensures streamsOK(streams)
 //@   atcall scheduler.Schedule#1: [C05] isnil(sched)
+//@   atcall (*stream).Close#1: [C10] true
+//@   ghostat (*upgrade).valid#1: ggb_answerNow() = (ctx.upgrade.Heartbeat == 1 || ctx.upgrade.Stream == 3)
+//@   ensures [C04] implies(err == nil && ggb_answerNow(), gg_wresp() == old(gg_wresp()) + 1 && gg_exec() == old(gg_exec()))
 //@ func (*Server).ServeRequest$1
 //@   requires true
 //@ func (*Server).ServeRequest$2
@@ -1108,7 +1132,8 @@ package rpc
 //@   requires srvOK(server) && !isnil(codec)
 //@   loop 1: invariant streamsOK(streams) && fresh(streams) && !isnil(readStream) && !isnil(pipeline) && !isnil(messages) && implies(server.pipelining, !isnil(sched))
 //@   atcall (*Server).ServeRequest#1: [C05] implies(server.pipelining, !isnil(arg4))
-//@   loop 2: invariant streamsOK(streams)
+//@   loop 2: invariant streamsOK(streams) && forall(i, 0, rangeidx(), streams[rangekey(i)].stream.closed == 1)
+//@   atcall scheduler.Scheduler.Close#2: [C10] forallkey(s, streams, streams[s].stream.closed == 1)
 //@   ensures [C20] gg_scodecClose() == old(gg_scodecClose()) + 1
 //@ func (*Server).ServeCodec$1
 //@   property C04 C05 C08
@@ -1129,3 +1154,61 @@ package rpc
 //@ func (*Server).listen$3$1
 //@   property C04 C05 C08
 //@   requires srvOK(server) && ctxOK(ctx) && sctxOK(svrctx) && !gb_registered(ctx)
+// ---- Transport housekeeping (transport.go) ----
+//@ pure csElems(c *conns, a int) bool = forall(i, 0, len(c.Conns), c.Conns[i] != nil && gf_addr(c.Conns[i]) == a && c.Conns[i].Conn != nil)
+//@ func (*conns).Delete
+//@   property C13 C15
+//@   requires c != nil && 0 <= cursor && cursor < len(c.Conns) && holds(Transport_connsMu) && csElems(c, sid(c.addr))
+//@   ensures len(c.Conns) == old(len(c.Conns)) - 1 && arr(c.Conns) == old(arr(c.Conns)) && off(c.Conns) == old(off(c.Conns)) && csElems(c, sid(c.addr))
+//@   modifies c.Conns
+//@   modifies c.Conns[cursor:len(c.Conns)]
+//@ pure tInv(t *Transport) bool = t.running == onceDone(t) && implies(!t.running, t.conns == nil && t.idleConns == nil) && implies(t.running, t.conns != nil && t.idleConns != nil && 1 <= t.MaxIdleConnsPerHost && 1 <= t.MaxConnsPerHost && !isnil(t.Dial) && !isnil(t.DialWithOptions) &&
+//@      forallkey(a, t.conns, csOK(t.conns[a], a)) &&
+//@      forallkey(a, t.conns, forallkey(b, t.conns, implies(a != b && arr(t.conns[a].Conns) != 0, arr(t.conns[a].Conns) != arr(t.conns[b].Conns)))) &&
+//@      forallkey(a, t.idleConns, cqOK(t.idleConns[a], a, t.MaxIdleConnsPerHost)) &&
+//@      forallint(a, nAct(t, a) <= t.MaxConnsPerHost && nIdle(t, a) <= t.MaxConnsPerHost - nAct(t, a)))
+//@ func (*Transport).CloseIdleConnections
+//@   property C13 C15 C20
+//@   requires t != nil
+//@   loop 1: invariant tInv(t) && forall(k, rangeidx(), rangen(), has(t.conns, rangekey(k)))
+//@   loop 2: invariant tInv(t) && t.running && forall(k, rangeidx(), rangen(), has(t.conns, rangekey(k))) && cs != nil && sid(cs.addr) == rangekey(rangeidx()-1) && has(t.conns, sid(cs.addr)) && t.conns[sid(cs.addr)] == cs && 0 <= i && i <= length && length == len(cs.Conns)
+//@   loop 3: invariant tInv(t) && forall(k, rangeidx(), rangen(), has(t.idleConns, rangekey(k)))
+//@   loop 4: invariant tInv(t) && t.running && forall(k, rangeidx(), rangen(), has(t.idleConns, rangekey(k))) && cq != nil && sid(cq.addr) == rangekey(rangeidx()-1) && has(t.idleConns, sid(cq.addr)) && t.idleConns[sid(cq.addr)] == cq && 0 <= i && i <= length && length - i == cq.length
+//@   atcall (*Conn).Close#1: [C15] gb_sawIdle(pc.Conn)
+//@   atcall delete#2: [C20 C15] cq.length == 0
+//@ func (*Transport).Close
+//@   property C13 C15 C20
+//@   requires t != nil
+//@   ensures result == nil
+//@   ghostat atomic.CompareAndSwapUint32#1: gf_ctok(t) = 2
+//@   ghostat close#1: gf_ctok(t) = 0
+//@   loop 1: invariant tInv(t) && t.running && forall(k, rangeidx(), rangen(), has(t.conns, rangekey(k)))
+//@   loop 2: invariant tInv(t) && t.running && forall(k, rangeidx(), rangen(), has(t.conns, rangekey(k))) && cs != nil && has(t.conns, sid(cs.addr)) && t.conns[sid(cs.addr)] == cs && 0 <= i && i <= length && length == len(cs.Conns)
+//@   loop 3: invariant tInv(t) && t.running && forall(k, rangeidx(), rangen(), has(t.idleConns, rangekey(k)))
+//@   loop 4: invariant tInv(t) && t.running && forall(k, rangeidx(), rangen(), has(t.idleConns, rangekey(k))) && cq != nil && sid(cq.addr) == rangekey(rangeidx()-1) && has(t.idleConns, sid(cq.addr)) && t.idleConns[sid(cq.addr)] == cq && 0 <= i && i <= length && length - i == cq.length
+//@   atcall delete#1: [C20 C15] cq.length == 0
+//@ func newConnQueue
+//@   property C13
+//@   ensures result != nil && fresh(result) && result.length == 0 && result.capacity == capacity && sid(result.addr) == sid(addr)
+//@   modifies fresh
+//@ func (*connQueue).Enqueue
+//@   trusted
+//@   property C13
+//@   requires q != nil && implies(value != nil, gf_addr(value) == sid(q.addr) && value.Conn != nil)
+//@   ensures implies(old(q.length) == q.capacity || value == nil, !result && q.length == old(q.length))
+//@   ensures implies(old(q.length) != q.capacity && value != nil, result && q.length == old(q.length) + 1)
+//@   modifies q.length
+//@ func (*connQueue).Rear
+//@   trusted
+//@   property C15
+//@   requires q != nil
+//@   ensures implies(q.length > 0, result != nil && result.value != nil && result.value.Conn != nil && gf_addr(result.value) == sid(q.addr))
+//@ func (*Transport).run
+//@   property C13 C15 C20
+//@   requires t != nil
+//@   loop 1: invariant ticker != nil
+//@   loop 2: invariant tInv(t) && forall(k, rangeidx(), rangen(), has(t.conns, rangekey(k)))
+//@   loop 3: invariant tInv(t) && t.running && forall(k, rangeidx(), rangen(), has(t.conns, rangekey(k))) && cs != nil && sid(cs.addr) == rangekey(rangeidx()-1) && has(t.conns, sid(cs.addr)) && t.conns[sid(cs.addr)] == cs && 0 <= i && i <= length && length == len(cs.Conns)
+//@   loop 4: invariant tInv(t) && forall(k, rangeidx(), rangen(), has(t.idleConns, rangekey(k)))
+//@   loop 5: invariant tInv(t) && t.running && forall(k, rangeidx(), rangen(), has(t.idleConns, rangekey(k))) && cq != nil && sid(cq.addr) == rangekey(rangeidx()-1) && has(t.idleConns, sid(cq.addr)) && t.idleConns[sid(cq.addr)] == cq && 0 <= i && i <= length && length - i <= cq.length
+//@   atcall (*Conn).Close#1: [C15] gb_sawIdle(pc.Conn)
